@@ -212,6 +212,44 @@ def run(tier, seed):
                     break
             if not ok:
                 break
+        # "every run": the caller of an earlier load has edited, in place, the program it was given (options, variables, operations,
+        # array data): what a later load of the same or of another script returns is the content of a fresh process
+        if ok:
+            custom = ["name a\nversion 1.0\n\nfloat array M =\n    0.5, 1.5\nint n = 2\nRgate(0.25, M[1]) | n\nBSgate(phi=0.5) | [0, 1]\n",
+                      "name b\nversion 1.0\ntarget gaussian\n\nfloat array M =\n    0.5, 1.5\nSgate(M[0]) | 1\n",
+                      "name c\nversion 1.0\ntarget X8 (shots=5)\ntype tdm (temporal_modes=2)\n\nfloat array p0 =\n    0.1, 0.2\nRgate(p0) | 0\n",
+                      "name d\nversion 1.0\ntype tdm\n\nint array p1 =\n    1, 2\nRgate(p1, 0.5) | 0\n",
+                      "name e\nversion 1.0\n\nVac | 0\n"]
+            jobs = []
+            orders = []
+            for _ in range(6 if quick else 40):
+                idx = [rng.randrange(len(custom)) for _ in range(rng.randint(3, 6))]
+                steps = []
+                for k in idx:
+                    steps.append({"text": custom[k]})
+                    if rng.random() < 0.7:
+                        steps.append({"customise": len(steps) - 1})
+                steps += [{"text": t} for t in custom]
+                orders.append(steps)
+                jobs.append(([{"kind": "history", "steps": steps}], "0", None))
+            fresh = subproc.run_batch([{"kind": "pristine", "steps": [{"text": t} for t in custom]}], "0")[0]
+            fresh = {t: json.dumps({k: v for k, v in o.items()}, sort_keys=True) for t, o in zip(custom, fresh)}
+            for steps, r in zip(orders, subproc.run_many(jobs)):
+                h = r[0]
+                for n, (st, o) in enumerate(zip(steps, h.get("steps", []))):
+                    if "text" not in st:
+                        continue
+                    res.count("load-after-customising")
+                    if json.dumps(o, sort_keys=True) != fresh[st["text"]]:
+                        ok = False
+                        res.violate("load number %d of a history in which the caller edits earlier results in place differs from the same load in a fresh process: %s vs %s"
+                                    % (n, json.dumps(o.get("obs", o))[:200], fresh[st["text"]][:200]), {"check": "customise", "steps": steps, "n": n})
+                        break
+                if h.get("died") or len(h.get("steps", [])) != len(steps):
+                    ok = False
+                    res.violate("a history of loads and in-place edits of their results does not complete", {"check": "customise", "steps": steps, "n": -1})
+                if not ok:
+                    break
     finally:
         shutil.rmtree(scratch, ignore_errors=True)
     res.oblige("correspondence: loaded content and dump text identical under %d hash seeds (transforms compared as register set + function values)" % len(seeds), "correspondence", ok)
@@ -227,6 +265,14 @@ def replay(rep):
     if inp.get("check") == "repeated":
         print("re-run the check: the violation depends on the number of earlier loads in the process")
         return run("quick", rep.get("seed", 0))
+    if inp.get("check") == "customise":
+        h = subproc.run_batch([{"kind": "history", "steps": inp["steps"]}], "0")[0]
+        texts = [st["text"] for st in inp["steps"] if "text" in st]
+        fresh = subproc.run_batch([{"kind": "pristine", "steps": [{"text": t} for t in texts]}], "0")[0]
+        got = [o for st, o in zip(inp["steps"], h.get("steps", [])) if "text" in st]
+        same = len(got) == len(fresh) and all(json.dumps(a, sort_keys=True) == json.dumps(b, sort_keys=True) for a, b in zip(got, fresh))
+        print("identical to fresh processes:", same)
+        return 0 if same else 1
     if inp.get("check") == "seeds":
         a = subproc.run_batch([{"kind": "loads", "text": inp["text"]}], inp["seeds"][0])
         b = subproc.run_batch([{"kind": "loads", "text": inp["text"]}], inp["seeds"][1])
